@@ -1,14 +1,10 @@
 (* AtJdn.v — Calendar::at_jdn of every calendar a user can hold returns, for every 32-bit day number,
    the date prescribed by the specification: label, day-of-year and day-of-month ordinals. *)
-From JV Require Import Sem Gen Spec.
+From JV Require Import Sem Gen Spec SpecX.
 From JV.Proofs Require Import SpecFacts GapFacts Cal Cmp Inner Year MonthGeom Shape Month MonthSpec SpecSums Walk SpecOrd.
 Import ListNotations.
 Open Scope Z_scope.
 Ltac Zify.zify_post_hook ::= Z.to_euclidean_division_equations.
-
-Definition date_of (c : cal) (j : Z) : Date :=
-  let '(y, m, d) := lbl c j in
-  mkDate (cal_of c) y (ordinal_of c j) (month_of_Z m) d (day_ordinal_of c j) j.
 
 (* the walk finds the date's own month and position *)
 Lemma ymddo_at c j : ValidCal c ->
